@@ -20,6 +20,9 @@ V31 = "CVSS:3.1/AV:N/AC:L/PR:N/UI:N/S:U/C:H/I:H/A:H"
 V31OPT = "CVSS:3.1/AV:P/AC:H/PR:H/UI:R/S:C/C:L/I:N/A:L/E:P/RL:O/CR:H/MAV:N/MS:U"
 V31X = "CVSS:3.1/AV:N/AC:L/PR:N/UI:N/S:U/C:H/I:H/A:H/E:X/MAV:X"  # equal to V31
 V40 = "CVSS:4.0/AV:N/AC:L/AT:N/PR:N/UI:N/VC:H/VI:H/VA:H/SC:N/SI:N/SA:N"
+# every optional metric written out: the longest vectors of their versions (75 and 9+108 characters)
+V2FULL = "AV:N/AC:L/Au:N/C:P/I:P/A:C/E:POC/RL:OF/RC:UC/CDP:LM/TD:H/CR:ND/IR:H/AR:ND"
+V31FULL = "CVSS:3.1/AV:N/AC:L/PR:N/UI:N/S:U/C:H/I:H/A:H/E:X/RL:O/RC:X/CR:H/IR:X/AR:L/MAV:N/MAC:X/MPR:L/MUI:X/MS:C/MC:X/MI:N/MA:X"
 NEAR = [
     "AV:N/AC:L/Au:N/C:P/I:P",                                # 22 chars, lacks a metric
     "AV:N/AC:L/Au:N/C:P/I:P/A:X",                            # illegal value
@@ -31,7 +34,7 @@ NEAR = [
 ]
 GLUE = [" ", ".", ",", "\n", "(", ")", "x", "/", ":", "7.5/", "CVSS:3.1/", "CVSS:3.", "3", "1", "é",
         "-", "\t", "CVSS:", "A"]
-ALPHABET = [V2MIN, V2OPT, V2PERM, V30, V31, V31OPT, V31X, V40] + NEAR + GLUE
+ALPHABET = [V2MIN, V2OPT, V2PERM, V30, V31, V31OPT, V31X, V40, V2FULL, V31FULL] + NEAR + GLUE + ["_", "0", "²"]
 
 
 def required(text):
